@@ -646,37 +646,24 @@ pub fn take_panic() -> Option<String> {
 }
 
 // ------------------------------------------------------------------------------------------
-// coverage-guided fuzzing entry: libFuzzer bytes drive the same proptest strategies
+// coverage-guided fuzzing entry (libFuzzer targets in /verif/fuzz)
 // ------------------------------------------------------------------------------------------
+//
+// The fuzz targets decode the raw bytes into a case with the hand-written decoders of
+// `crate::fuzzdec` and then run the SAME oracle as the proptest check. (proptest's PassThrough RNG
+// cannot be used for this: every `prop_oneof!` forks the RNG by halving the remaining input, and
+// rand 0.9's range sampling spins for ever on the zeros an exhausted input yields.)
 
-/// Builds a case from raw bytes by using them as the random stream of the property's strategy
-/// (proptest's PassThrough RNG; exhausted input continues as zeros).
-pub fn case_from_bytes<P: Property>(tier: Tier, data: &[u8]) -> Option<P::Case> {
-    let rng = TestRng::from_seed(RngAlgorithm::PassThrough, data);
-    let mut runner = TestRunner::new_with_rng(
-        Config { failure_persistence: None, max_local_rejects: 64, max_global_rejects: 64, ..Config::default() },
-        rng,
-    );
-    P::strategy(tier).new_tree(&mut runner).ok().map(|t| t.current())
-}
-
-/// One libFuzzer iteration: generate the case from the bytes, run the oracle, panic on a
-/// violation that is not a known finding (so that libFuzzer keeps the input).
-pub fn fuzz_one<P: Property>(data: &[u8]) {
+/// One libFuzzer iteration on an already decoded case: run the oracle, abort on a violation that is
+/// not a known finding (so that libFuzzer keeps the input) after writing a replay file.
+pub fn fuzz_case<P: Property>(case: &P::Case) {
     use std::sync::OnceLock;
     static FINDINGS: OnceLock<Findings> = OnceLock::new();
-    static HOOK: OnceLock<()> = OnceLock::new();
-    HOOK.get_or_init(|| {
-        if std::env::var("VERIF_FUZZ_QUIET").is_ok() {
-            install_panic_hook();
-        }
-    });
     let findings = FINDINGS.get_or_init(Findings::load);
-    let Some(case) = case_from_bytes::<P>(Tier::Quick, data) else { return };
-    let rep = match catch_unwind(AssertUnwindSafe(|| P::run(&case))) {
+    let rep = match catch_unwind(AssertUnwindSafe(|| P::run(case))) {
         Ok(r) => r,
         Err(_) => {
-            dump_fuzz_case::<P>(&case, "panic", "the code under test (or the harness) panicked");
+            dump_fuzz_case::<P>(case, "panic", "the code under test (or the harness) panicked");
             std::process::abort();
         }
     };
@@ -684,7 +671,7 @@ pub fn fuzz_one<P: Property>(data: &[u8]) {
         if v.signature.starts_with("HARNESS-PANIC") || findings.status(P::ID, &v.signature) == Some(Status::Known) {
             return;
         }
-        dump_fuzz_case::<P>(&case, &v.signature, &v.detail);
+        dump_fuzz_case::<P>(case, &v.signature, &v.detail);
         eprintln!("VIOLATION property={} signature={} detail={}", P::ID, v.signature, truncate(&v.detail, 800));
         std::process::abort();
     }
@@ -697,20 +684,5 @@ fn dump_fuzz_case<P: Property>(case: &P::Case, sig: &str, detail: &str) {
     let doc = json!({ "property": P::ID, "signature": sig, "detail": detail, "seed": 0, "tier": "fuzz",
         "case": serde_json::to_value(case).unwrap_or(Value::Null) });
     let _ = std::fs::write(&path, serde_json::to_vec_pretty(&doc).unwrap());
-    eprintln!("replay written to {}", path.display());
-}
-
-/// Writes `n` seed-corpus files for the fuzz target of P (byte streams recorded while the ordinary
-/// strategy generates values).
-pub fn write_corpus<P: Property>(dir: &Path, n: usize, seed: u64) {
-    let _ = std::fs::create_dir_all(dir);
-    for i in 0..n {
-        let s = derive_seed(seed, P::ID, i);
-        let rng = TestRng::from_seed(RngAlgorithm::Recorder, &seed_bytes(s));
-        let mut runner = TestRunner::new_with_rng(Config { failure_persistence: None, ..Config::default() }, rng);
-        if P::strategy(Tier::Quick).new_tree(&mut runner).is_ok() {
-            let bytes = runner.bytes_used();
-            let _ = std::fs::write(dir.join(format!("seed-{i:04}")), bytes);
-        }
-    }
+    eprintln!("FUZZ-REPLAY {}", path.display());
 }
